@@ -14,10 +14,10 @@ class ExpressionParser(SubParser):
             self.next_token()
             if not self._atom():
                 return False
-            while ((self.current_token.is_binop
-                        and self.current_token.prec > op.prec)
-                    or (self.current_token.assoc is Assoc.RIGHT
-                        and self.current_token.prec == op.prec)):
+            while (self.current_token.is_binop
+                    and (self.current_token.prec > op.prec
+                        or (self.current_token.assoc is Assoc.RIGHT
+                            and self.current_token.prec == op.prec))):
                 if not self._expression(self.current_token.prec):
                     return False
             if not self._do_op(op):
